@@ -49,6 +49,8 @@ def check(run):
     run.rule_text = "F-PATH boolean dominance + tolerance bound from the margin + truth table + C13's extreme-latitude obligations"
     run.assumptions = ["IEEE double: np.finfo(float).eps = 2.22e-16", "admissible inputs keep every decision at least 1e-6 rad from its boundary (the property's quantifier)"]
     _intersection(run, P)
+    _tolerances_explicit(run, P)
+    _argument_roles(run, P)
     _on_circle_tolerance(run, P)
     _pole_latitude(run, P)
     _extreme(run, P)
@@ -294,3 +296,69 @@ def _on_circle_tolerance(run, P):
                       f"more than the 1e-6 rad margin for every arc shorter than {a / MARGIN:.2g} rad (bound {MAX_ON_CIRCLE_TOL:.1g})", facts={"atol": a, "bound": MAX_ON_CIRCLE_TOL})
     else:
         run.holds("F-PATH/on-circle-tolerance", c, where(f, test), f"absolute tolerance {a:g} < {MAX_ON_CIRCLE_TOL:.1g} (no admissible off-circle point is accepted through the scale of the normal)", facts={"atol": a, "bound": MAX_ON_CIRCLE_TOL})
+
+
+GEOMETRY_FILES = ("uxarray/grid/arcs.py", "uxarray/grid/intersections.py", "uxarray/grid/coordinates.py", "uxarray/grid/geometry.py", "uxarray/grid/integrate.py", "uxarray/utils/computing.py")
+
+
+def _tolerances_explicit(run, P):
+    """Every closeness test in the geometry kernels names its tolerance (atol= and/or rtol=, the library's ERROR_TOLERANCE / MACHINE_EPSILON): numpy's defaults
+    (rtol=1e-5, atol=1e-8) are three orders of magnitude looser than ERROR_TOLERANCE = 1e-8 on unit-sphere quantities, so a bare isclose()/allclose() used as a shortcut
+    ("already normalised", "same point") silently changes results of short arcs and fine meshes."""
+    n = 0
+    bad = []
+    for f in P.all_functions():
+        if f.module.relpath not in GEOMETRY_FILES:
+            continue
+        for c in ast.walk(f.node):
+            if isinstance(c, ast.Call) and (dotted(c.func) or [""])[-1] in ("isclose", "allclose"):
+                n += 1
+                explicit = any(k.arg in ("atol", "rtol") for k in c.keywords) or len(c.args) >= 3
+                if not explicit:
+                    bad.append((f, c))
+    c0 = "geometry-kernels:closeness-tests-name-their-tolerance"
+    for f, c in bad:
+        run.violation("F-PATH/explicit-tolerance", f"{f.key}:{norm(c)[:40]}", where(f, c), f"{norm(c)[:70]} uses numpy's default tolerances (rtol=1e-5): far looser than the library's ERROR_TOLERANCE; "
+                      "quantities within 1e-5 of each other (short arcs, nearly unit vectors) are treated as equal")
+    if not bad:
+        run.holds("F-PATH/explicit-tolerance", c0, "-", f"all {n} isclose/allclose calls in the geometry kernels pass atol and/or rtol explicitly")
+    run.floor("F-PATH/explicit-tolerance", n, 20)
+
+
+def _argument_roles(run, P):
+    """No two same-named arguments are exchanged on the way into a package function: a call f(.., rtol, atol) of f(.., atol, rtol) compiles, runs and silently swaps the
+    meaning of both (for the tolerance helpers: an absolute tolerance of 1e-5 where 1e-15 was meant).  Only MUTUAL swaps of bare names that are both parameter names of
+    the callee are reported."""
+    from ..loader import FuncInfo
+    n = 0
+    bad = []
+    for f in P.all_functions():
+        if f.module.relpath not in GEOMETRY_FILES:
+            continue
+        for c in ast.walk(f.node):
+            if not isinstance(c, ast.Call):
+                continue
+            t = P.resolve_expr(f.module, c.func, f)
+            if not isinstance(t, FuncInfo):
+                continue
+            ps = t.params()
+            if t.cls is not None and isinstance(c.func, ast.Attribute):
+                ps = ps[1:]
+            n += 1
+            names = [a.id if isinstance(a, ast.Name) else None for a in c.args]
+            for i, a in enumerate(names):
+                if a is None or i >= len(ps) or a == ps[i] or a not in ps:
+                    continue
+                j = ps.index(a)
+                if j < len(names) and names[j] == ps[i]:
+                    bad.append((f, c, a, ps[i], t))
+    seen = set()
+    for f, c, a, p_, t in bad:
+        k = (f.key, c.lineno)
+        if k in seen:
+            continue
+        seen.add(k)
+        run.violation("F-SIG/argument-roles", f"{f.key}:call({t.name})", where(f, c), f"{norm(c)[:70]}: {a} is passed where {t.name} expects {p_} and vice versa (parameters {t.params()})")
+    if not bad:
+        run.holds("F-SIG/argument-roles", "geometry-kernels:no-exchanged-arguments", "-", f"{n} calls to package functions: no pair of same-named arguments is exchanged")
+    run.floor("F-SIG/argument-roles", n, 50)
